@@ -9,8 +9,15 @@ from anchors import INT_ANCHORS, FLOAT_ANCHORS, INT_RANK, FLOAT_RANK
 from stonegen import TS_FORMATS, concrete_str
 
 TS_VALUES = {
-    'f1': [datetime.datetime(2015, 5, 12, 15, 50, 38), datetime.datetime(1999, 12, 31, 23, 59, 59)],
-    'f2': [datetime.datetime(2015, 5, 12), datetime.datetime(1999, 12, 31)],
+    # ids 2 and 3: values the format does not carry completely (fractions of a second, an explicit UTC zone, a time of day
+    # under a date format); they encode like ids 0 / 1 (json_serializer.rst: strftime with the declared format) but cannot
+    # round-trip, so only the encoder checks (C05, wide stage) use them
+    'f1': [datetime.datetime(2015, 5, 12, 15, 50, 38), datetime.datetime(1999, 12, 31, 23, 59, 59),
+           datetime.datetime(2015, 5, 12, 15, 50, 38, 250000),
+           datetime.datetime(1999, 12, 31, 23, 59, 59, tzinfo=datetime.timezone.utc)],
+    'f2': [datetime.datetime(2015, 5, 12), datetime.datetime(1999, 12, 31),
+           datetime.datetime(2015, 5, 12, 13, 14, 15, 16), datetime.datetime(1999, 12, 31, tzinfo=datetime.timezone.utc)],
+    'f3': [datetime.datetime(2015, 5, 12, 15, 50, 38, 250000), datetime.datetime(1999, 12, 31, 23, 59, 59, 1)],
 }
 
 
